@@ -154,3 +154,65 @@ def run_harness(crate, h, log_dir):
         "functions": h.get("functions", crate.get("functions", [])),
         "cmd": "cd %s && GIX_VERIF_DIR=%s CARGO_TARGET_DIR=%s %s" % (crate_cwd(crate), VERIF, target_dir(crate), " ".join(cmd)),
     }
+
+
+BATCH_BLOCK_RE = re.compile(r"Thread (\d+): Checking harness ([^\n]+?)\.\.\.\n")
+
+
+def run_batch(crate, hs, log_dir, jobs):
+    """Fast path: all harnesses of a crate in ONE cargo-kani invocation (`-j`, terse output). A harness that is
+    reported SUCCESSFUL with its reach-cover satisfied is final; every other harness (failed, timed out,
+    not reported) is re-run on its own by run_harness() for classification and counter-example extraction.
+    -> dict name -> result (only for successes)"""
+    if not hs:
+        return {}
+    prefix = crate.get("harness_prefix", "kani_proofs::")
+    tmo = max(h.get("timeout", 600) for h in hs)
+    mem = max(h.get("mem_gb", 12) for h in hs)
+    cmd = ["cargo", "kani"] + KANI_FLAGS[:4] + ["-Z", "unstable-options", "-j", str(jobs), "--output-format", "terse",
+                                                "--harness-timeout", "%ds" % tmo, "--exact"] + crate.get("cargo_args", [])
+    for h in hs:
+        cmd += ["--harness", prefix + h["name"]]
+    waves = (len(hs) + jobs - 1) // jobs
+    rc, out, secs, to = run(cmd, cwd=crate_cwd(crate), env=env_for(crate), timeout=tmo * waves + 300, mem_gb=mem * 2.5)
+    write(os.path.join(log_dir, "%s%s.batch.log" % (crate["unit"], crate.get("unit_suffix", ""))), out)
+    # split into per-thread result blocks
+    results = {}
+    cur = {}   # thread -> harness full name
+    pos = 0
+    events = []
+    for m in BATCH_BLOCK_RE.finditer(out):
+        events.append((m.start(), "start", m.group(1), m.group(2).strip()))
+    for m in re.finditer(r"Thread (\d+): \nVERIFICATION RESULT:(.*?)(?=\nThread \d+: |\nManual Harness Summary|\Z)", out, re.S):
+        events.append((m.start(), "result", m.group(1), m.group(2)))
+    events.sort()
+    for _, kind, th, payload in events:
+        if kind == "start":
+            cur[th] = payload
+        else:
+            full = cur.get(th)
+            if not full:
+                continue
+            name = full[len(prefix):] if full.startswith(prefix) else full
+            h = next((x for x in hs if x["name"] == name), None)
+            if not h:
+                continue
+            ok = "VERIFICATION:- SUCCESSFUL" in payload
+            mc = re.search(r"\*\* (\d+) of (\d+) cover properties satisfied", payload)
+            mf = re.search(r"\*\* (\d+) of (\d+) failed(?: \((\d+) unreachable\))?", payload)
+            mt = re.search(r"Verification Time: ([0-9.]+)s", payload)
+            if ok and mc and int(mc.group(1)) >= 1 and mf and int(mf.group(1)) == 0:
+                stubs = re.findall(r"Thread %s:\s+- Stub: ([^\n]+)" % th, out)
+                results[name] = {
+                    "unit": crate["unit"], "harness": name, "full_name": full, "status": "success", "reason": "",
+                    "failed_checks": [], "n_checks": int(mf.group(2)), "n_success": int(mf.group(2)),
+                    "covers": (int(mc.group(1)), int(mc.group(2))), "wall_s": float(mt.group(1)) if mt else 0.0,
+                    "solver_s": float(mt.group(1)) if mt else None, "concrete_vals": None, "stubs": sorted(set(stubs)),
+                    "log": os.path.join(log_dir, "%s%s.batch.log" % (crate["unit"], crate.get("unit_suffix", ""))),
+                    "replay_dir": replay_dir(crate), "in_crate": crate["mode"] == "in_crate", "repo_crate": crate.get("repo_crate"),
+                    "kind": h.get("kind", "bounded"), "bound": h.get("bound", ""), "props": h.get("props", []),
+                    "functions": h.get("functions", crate.get("functions", [])),
+                    "cmd": "cd %s && GIX_VERIF_DIR=%s CARGO_TARGET_DIR=%s cargo kani %s --harness %s --exact" % (
+                        crate_cwd(crate), VERIF, target_dir(crate), " ".join(KANI_FLAGS[:4]), full),
+                }
+    return results
